@@ -82,7 +82,7 @@ Definition hidden_labels (calls : nat) (endt : nat -> Z) (now : Z) (s : state) :
       ++ (if (endt i + ivl i - eps <=? now)%Z then [WRetryWake i] else [])
       ++ (if (endt i + rivl i - eps <=? now)%Z then [WRepeatWake i] else []))
     (seq 0 n)
-  ++ [LExit; SigNode false; HBegin; HFinish] ++ map HSkip all_handlers
+  ++ [LExit; SigNode false; HBegin; HFinish] ++ map HSkip all_handlers ++ map HSetupFail all_handlers
   ++ (if (sigs c - sigleft s <? calls) then [SigFlag] else [])
   ++ (if (tmo_at - eps <=? now)%Z then [Timeout] else []).
 
@@ -129,7 +129,11 @@ Definition feed2 (p : pstate) (e : event2) : option pstate :=
         | [] => None
         | ss' => Some {| pss := ss'; pendt := fun j => if j =? i then t else pendt p j; pcalls := pcalls p |}
         end
-    | E2Refused i _ => mk (apply_all (WExecRefused i) ss)
+    | E2Refused i t =>      (* the attempt ended without a command: expired context, or the command could not be created *)
+        match apply_all (WExecRefused i) ss ++ apply_all (WCreateFail i) ss with
+        | [] => None
+        | ss' => Some {| pss := ss'; pendt := fun j => if j =? i then t else pendt p j; pcalls := pcalls p |}
+        end
     | E2Kill i _ =>
         mk (apply_all (SigNode true) (filter (fun s => match sigq s with j :: _ => j =? i | [] => false end) ss))
     | E2SigCall _ => Some {| pss := ss; pendt := pendt p; pcalls := S (pcalls p) |}
